@@ -398,7 +398,7 @@ Proof.
       try (destr_eq; ch; fail).
     + pose proof (calm_inst t y s) as Qi. destruct (inst t y s) as [y' s1]. cbn [snd] in Qi.
       destruct (get_task t s1) as [tk|] eqn:G; cbn [c_st]; [|exact Qi].
-      destruct (tk_deps tk ++ futs (extract y')); cbn [c_st]; ch.
+      destruct (futs (extract y')); cbn [c_st]; ch.
     + pose proof (calm_create t f s) as Qi. destruct (create t f s) as [h s1]. cbn [snd c_st] in *. exact Qi.
 Qed.
 
